@@ -209,10 +209,18 @@ func runAmmo(kv map[string]string, data []byte) string {
 			if req.Body != nil {
 				body, _ = io.ReadAll(req.Body)
 			}
-			return hex.EncodeToString([]byte(tag)) + "/" + hex.EncodeToString([]byte(req.URL.String())) + "/" + hex.EncodeToString(body), true
+			return hex.EncodeToString([]byte(tag)) + "/" + hex.EncodeToString([]byte(req.URL.String())) + "/" + bodyHex(body), true
 		default:
 			return hex.EncodeToString([]byte(tag)), true
 		}
 	})
 	return res.String()
+}
+
+// a body of more than 64 bytes is rendered by its length, its first four and its last four bytes
+func bodyHex(b []byte) string {
+	if len(b) <= 64 {
+		return hex.EncodeToString(b)
+	}
+	return fmt.Sprintf("#%d.%s.%s", len(b), hex.EncodeToString(b[:4]), hex.EncodeToString(b[len(b)-4:]))
 }
